@@ -144,13 +144,13 @@ def run(ctx):
                                 specs.append(s)
     jobs = [(ctx.repo, s) for s in specs]
     by = {}
-    for job, r in zip(jobs, ctx.pmap(worker, jobs)):
+    for job, r in ctx.pairs(worker, jobs):
         cfg = r["cfg"]
         ev.obligation("signature", not r["problems"], tuple(str(v) for v in sorted(cfg.items())), sample={k: v for k, v in cfg.items()} if ev.obligations % 17 == 0 else None)
         for kind, what, site in r["problems"]:
             by.setdefault((cfg["cls"], "equivariant" if cfg["equivariant"] else "conventional", kind), []).append((what, site, cfg))
     fj = [(ctx.repo, D, o, nl) for D in (2, 3) for (i, o) in sigs for nl in (1, 2) if not (D == 3 and any(t[0] == 2 for t, _ in o) and nl == 2)]
-    for job, r in zip(fj, ctx.pmap(flatten_worker, fj)):
+    for job, r in ctx.pairs(flatten_worker, fj):
         cfg = r["cfg"]
         ev.obligation("flatten", not r["problems"], tuple(str(v) for v in cfg.values()), sample=cfg if cfg["D"] == 2 and cfg["leading_axes"] == 2 else None)
         for kind, what, site in r["problems"]:
